@@ -672,6 +672,7 @@ ILL_FORMED = {
     "double-equals": ["m = [length]", "x == {a} * m"],
     "empty-modifier-value": ["kel = [temp]", "degX = {a} * kel; offset:"],
     "empty-relation": ["m = [length]", "x ="],
+    "empty-relation-with-modifier": ["kel = [temp]", "degX = ; offset: {a}"],
     "empty-prefix-value": ["m = [length]", "kk- ="],
     # block headers that are not of the documented form (invalid name, trailing junk)
     "header:group-invalid-name": ["m = [length]", "@group test-imperial", "    y = {a} * m", "@end"],
